@@ -981,8 +981,10 @@ def suite_start_workflow_id(ctx):
 
 
 def engine_traces(ctx):
-    """Engine-level trace correspondence (duplicate injector against Model/Engine.v): added by the engine suite."""
-    pass
+    """Engine-level trace correspondence (duplicate injector against Model/Engine.v) and the oracle
+    'a redelivered start_task / result message changes no row'."""
+    from harness import engine_trace as et
+    et.trace_suite(ctx, ['C06'], ['dup', 'dup', 'operator'], 150, 2000, suite='engine_trace_C06')
 
 
 def run(ctx):
